@@ -9,6 +9,7 @@ import (
 	"encoding/json"
 	"fmt"
 	"hash/fnv"
+	"io"
 	"math"
 	"math/rand"
 	"mime/multipart"
@@ -38,6 +39,9 @@ import (
 //          name, or (status, error code, message names the parameter), or a recovered panic.
 //   multi  one operation with several non-body parameters, one request: the names named by the error of the route's
 //          UntypedRequestBinder.Bind (a set), status, whether the handler ran, the values received
+//   file   one operation with one parameter of type file (in: formData), one POST with a multipart or an urlencoded
+//          form body made of file parts and plain fields: status, error code, whether the handler ran, and the file
+//          (name, content) it received
 //   canon  http.CanonicalHeaderKey on one name (the model's canon_key)
 //   int    strconv.ParseInt(txt, 10, 64) (the model's parse_int_dec)
 //   split  swag.SplitByFormat (the model's split_by_format incl. strings.TrimSpace)
@@ -69,6 +73,8 @@ type c03In struct {
 	Decoys []c03Decoy `json:"decoys,omitempty"`
 	// kind "multi": several non-body parameters of ONE operation and ONE request carrying (or omitting) each of them
 	Params []c03MParam `json:"params,omitempty"`
+	// kind "file": Decl = {name, in: formData, type: file, required}; Multipart = flavour of the body; its parts in order
+	Parts []c03Part `json:"parts,omitempty"`
 	S      Bs         `json:"s,omitempty"`
 	CF        Bs       `json:"scf,omitempty"`
 	Name      Bs       `json:"sname,omitempty"`
@@ -80,6 +86,14 @@ type c03Decoy struct {
 	Loc string `json:"loc"`
 	Key Bs     `json:"key"`
 	Val Bs     `json:"val"`
+}
+
+// one part of the form body of a file case. Filename "" = a plain field (no filename attribute); in an urlencoded
+// body every part is sent as the field name=data
+type c03Part struct {
+	Name     Bs `json:"name"`
+	Filename Bs `json:"filename,omitempty"`
+	Data     Bs `json:"data,omitempty"`
 }
 
 // one declared parameter of a multi case and what the request sends for it in its own location
@@ -123,6 +137,10 @@ type c03Obs struct {
 	Valid  int    `json:"valid,omitempty"` // 0 = validator passes (or binding failed); else first error code
 	DefCoq string `json:"def_coq,omitempty"`
 	Outcome string `json:"outcome,omitempty"`
+	// kind "file": the file the handler received under the declared name (FileGot: its Data is not nil)
+	FileGot  bool `json:"file_got,omitempty"`
+	FileName Bs   `json:"file_name,omitempty"`
+	FileData Bs   `json:"file_data,omitempty"`
 	// direct kinds
 	R     Bs   `json:"r,omitempty"`
 	OK    bool `json:"ok,omitempty"`
@@ -597,6 +615,13 @@ func (p c03) Gen(r *rand.Rand, tier string, i int) any {
 		h.Write(raw)
 		return c03GenMulti(rand.New(rand.NewSource(int64(h.Sum64()>>1))))
 	}
+	if i%20 == 13 {
+		// a file case in the place of one case in twenty, same device
+		raw, _ := json.Marshal(in)
+		h := fnv.New64a()
+		h.Write(raw)
+		return c03GenFile(rand.New(rand.NewSource(int64(h.Sum64()>>1))))
+	}
 	return in
 }
 
@@ -815,6 +840,7 @@ func (c03) Enumerate(tier string) []any {
 	}
 	out = append(out, c03EnumCross()...)
 	out = append(out, c03EnumMulti()...)
+	out = append(out, c03EnumFile()...)
 	if tier == "thorough" {
 		for _, f := range c03FmtNames {
 			for _, txt := range c03FmtTexts[f] {
@@ -1560,6 +1586,9 @@ func (c03) Run(inAny any) any {
 	if in.Kind == "multi" {
 		return c03RunMulti(in)
 	}
+	if in.Kind == "file" {
+		return c03RunFile(in)
+	}
 	d := in.Decl
 	raw := c03RawRequest(in)
 	sh := c03ShapeOf(in)
@@ -1655,6 +1684,9 @@ func (c03) Coq(inAny any, obsAny any) string {
 	if in.Kind == "multi" {
 		return c03CoqMulti(in, obs)
 	}
+	if in.Kind == "file" {
+		return c03CoqFile(in, obs)
+	}
 	d := in.Decl
 	decl := c03CoqDecl(d, obs.DefCoq)
 	rq := c03CoqRequest(obs)
@@ -1677,7 +1709,7 @@ func (c03) Coq(inAny any, obsAny any) string {
 
 func (c03) Classify(inAny any, obsAny any) []string {
 	in, obs := inAny.(c03In), obsAny.(c03Obs)
-	if in.Kind == "multi" {
+	if in.Kind == "multi" || in.Kind == "file" {
 		return nil
 	}
 	// F-C03-4: a default that does not conform to the declared type (outside the description language) is
@@ -1777,6 +1809,8 @@ func (c03) Category(inAny any, obsAny any) (string, bool) {
 		return "read", len(in.Pairs) > 0
 	case "multi":
 		return c03CategoryMulti(in, obs)
+	case "file":
+		return c03CategoryFile(in, obs)
 	}
 	d := in.Decl
 	// does the declared name occur in the request (by the rule of the location)?
@@ -2270,4 +2304,202 @@ func c03CategoryMulti(in c03In, obs c03Obs) (string, bool) {
 	}
 	return fmt.Sprintf("multi/k=%d/locations=%d/rejected-by-validation=%d/rejected-by-type-or-required=%d/named=%d/%s", len(in.Params), len(locs), byValid, byBinder, named, obs.Outcome),
 		byValid+byBinder > 0 || len(in.Params) >= 2
+}
+
+// ------------------------------------------------------------------ file parameters (kind "file")
+
+var c03FileNames = []string{"upload9", "file", "Doc_1", "a.b9"}
+var c03FileFilenames = []string{"a.txt", "b.bin", "x y.png", "UPPER.TXT", "noext", ".hidden", "r\u00e9sum\u00e9.pdf"}
+var c03FileDatas = []string{"", "x", "hello\n", "a=b&c=d", "line1\r\nline2\r\n", "\x00\x01\xff\xfe", "--", "--verif", "Content-Disposition: form-data; name=\"upload9\"; filename=\"z\"\r\n\r\nz", "%41+%zz"}
+
+// another spelling of the name that is a different name for a form body
+func c03FileOtherName(r *rand.Rand, name string) string {
+	switch r.Intn(4) {
+	case 0:
+		return strings.ToUpper(name)
+	case 1:
+		return name + "2"
+	case 2:
+		return name[:len(name)-1]
+	}
+	return "other"
+}
+
+func c03GenFile(r *rand.Rand) c03In {
+	name := c03Pick(r, c03FileNames)
+	in := c03In{Kind: "file", Decl: &c03Decl{Name: name, In: "formData", Type: "file", Required: r.Intn(3) != 0}, Multipart: r.Intn(5) < 3}
+	data := func() Bs {
+		if r.Intn(3) == 0 {
+			return Bs(c03Junk(r, "ab \r\n\x00\xff=&%+;\"", 40))
+		}
+		return Bs(c03Pick(r, c03FileDatas))
+	}
+	n := []int{0, 1, 1, 1, 2, 2, 3, 4}[r.Intn(8)]
+	for j := 0; j < n; j++ {
+		p := c03Part{Name: Bs(name), Data: data()}
+		if r.Intn(3) == 0 {
+			p.Name = Bs(c03FileOtherName(r, name))
+		}
+		if r.Intn(4) != 0 {
+			p.Filename = Bs(c03Pick(r, c03FileFilenames))
+		}
+		in.Parts = append(in.Parts, p)
+	}
+	return in
+}
+
+// {required, optional} x {multipart, urlencoded} x two names x the part configurations: nothing, the file, a file under
+// another name / a case variant, a plain field of the name, field then file, two files, file among others, empty file
+func c03EnumFile() []any {
+	var out []any
+	for _, name := range []string{"upload9", "file"} {
+		other, upper := name+"2", strings.ToUpper(name)
+		cfgs := [][]c03Part{
+			nil,
+			{{Name: Bs(name), Filename: "a.txt", Data: "hello\n"}},
+			{{Name: Bs(other), Filename: "a.txt", Data: "hello\n"}},
+			{{Name: Bs(upper), Filename: "a.txt", Data: "hello\n"}},
+			{{Name: Bs(name), Data: "plain"}},
+			{{Name: Bs(name), Data: "plain"}, {Name: Bs(name), Filename: "b.bin", Data: "\x00\x01\xff"}},
+			{{Name: Bs(name), Filename: "a.txt", Data: "first"}, {Name: Bs(name), Filename: "b.bin", Data: "second"}},
+			{{Name: Bs(other), Filename: "o.txt", Data: "o"}, {Name: "note", Data: "n"}, {Name: Bs(name), Filename: "x y.png", Data: "img"}},
+			{{Name: Bs(name), Filename: "empty", Data: ""}},
+			{{Name: "note", Data: "n"}},
+		}
+		for _, required := range []bool{true, false} {
+			for _, mp := range []bool{true, false} {
+				for _, cfg := range cfgs {
+					out = append(out, c03In{Kind: "file", Decl: &c03Decl{Name: name, In: "formData", Type: "file", Required: required}, Multipart: mp, Parts: cfg})
+				}
+			}
+		}
+	}
+	return out
+}
+
+func c03FileRaw(in c03In) []byte {
+	var body []byte
+	ctype := "application/x-www-form-urlencoded"
+	if in.Multipart {
+		var mb bytes.Buffer
+		mw := multipart.NewWriter(&mb)
+		_ = mw.SetBoundary("verifboundary")
+		for _, p := range in.Parts {
+			var w io.Writer
+			var err error
+			if p.Filename != "" {
+				w, err = mw.CreateFormFile(string(p.Name), string(p.Filename))
+			} else {
+				w, err = mw.CreateFormField(string(p.Name))
+			}
+			if err != nil {
+				panic(err)
+			}
+			w.Write([]byte(p.Data))
+		}
+		mw.Close()
+		body = mb.Bytes()
+		ctype = "multipart/form-data; boundary=verifboundary"
+	} else {
+		var ps [][2]Bs
+		for _, p := range in.Parts {
+			ps = append(ps, [2]Bs{p.Name, p.Data})
+		}
+		body = []byte(c03Encode(ps))
+	}
+	var sb bytes.Buffer
+	fmt.Fprintf(&sb, "POST /x HTTP/1.1\r\nHost: verif\r\nContent-Type: %s\r\nContent-Length: %d\r\n\r\n", ctype, len(body))
+	sb.Write(body)
+	return sb.Bytes()
+}
+
+func c03RunFile(in c03In) c03Obs {
+	var obs c03Obs
+	d := in.Decl
+	raw := c03FileRaw(in)
+	env := c03BuildAll([]*c03Decl{d}, c03Shape{hasForm: true})
+	rec := httptest.NewRecorder()
+	obs.Panicked, obs.Panic = recoverTo(func() {
+		env.handler.ServeHTTP(rec, c03ReadRequest(raw))
+		if f, ok := env.got[d.Name].(runtime.File); ok && f.Data != nil {
+			obs.FileGot = true
+			b, err := io.ReadAll(f.Data)
+			if err != nil {
+				panic(fmt.Sprintf("reading the received file: %v", err))
+			}
+			obs.FileData = Bs(b)
+			if f.Header != nil {
+				obs.FileName = Bs(f.Header.Filename)
+			}
+		}
+	})
+	obs.Ran = env.ran
+	if obs.Panicked {
+		obs.Outcome = "panic"
+		return obs
+	}
+	obs.Status = rec.Code
+	if env.ran && rec.Code == 200 {
+		obs.Outcome = "ran-without-file"
+		if obs.FileGot {
+			obs.Outcome = "ran-with-file"
+		}
+		return obs
+	}
+	var body struct {
+		Code    int    `json:"code"`
+		Message string `json:"message"`
+	}
+	_ = json.Unmarshal(rec.Body.Bytes(), &body)
+	obs.Code, obs.Msg = body.Code, body.Message
+	obs.Names = strings.Contains(body.Message, d.Name)
+	obs.Outcome = fmt.Sprintf("status-%d", rec.Code)
+	return obs
+}
+
+func c03CoqFile(in c03In, obs c03Obs) string {
+	flavour := "FUrlencoded"
+	if in.Multipart {
+		flavour = "FMultipart"
+	}
+	parts := coqList(in.Parts, func(p c03Part) string {
+		// an urlencoded body has fields only; the model does not look at them, they are printed as sent
+		return fmt.Sprintf("(FPart %s %s %s)", coqBytes(string(p.Name)), coqOpt(p.Filename != "", coqBytes(string(p.Filename))), coqBytes(string(p.Data)))
+	})
+	got := coqOpt(obs.FileGot, coqPair(coqBytes(string(obs.FileName)), coqBytes(string(obs.FileData))))
+	return fmt.Sprintf("CFile %s %s (FReq %s %s) %s %s %s %s %s %s", coqBool(in.Decl.Required), coqBytes(in.Decl.Name), flavour, parts,
+		coqBool(obs.Ran), coqBool(obs.Panicked), coqNatBig(obs.Status), coqNatBig(obs.Code), coqBool(obs.Names), got)
+}
+
+func c03CategoryFile(in c03In, obs c03Obs) (string, bool) {
+	flavour := "urlencoded"
+	if in.Multipart {
+		flavour = "multipart"
+	}
+	sent := "nothing-of-the-name"
+	fileOf, fieldOf := false, false
+	for _, p := range in.Parts {
+		if string(p.Name) == in.Decl.Name {
+			if p.Filename != "" {
+				fileOf = true
+			} else {
+				fieldOf = true
+			}
+		}
+	}
+	switch {
+	case fileOf && fieldOf:
+		sent = "file-and-field"
+	case fileOf:
+		sent = "file"
+	case fieldOf:
+		sent = "field-only"
+	case len(in.Parts) > 0:
+		sent = "other-names-only"
+	}
+	req := "optional"
+	if in.Decl.Required {
+		req = "required"
+	}
+	return fmt.Sprintf("file/%s/%s/%s/%s", flavour, req, sent, obs.Outcome), in.Decl.Required || fileOf || fieldOf
 }
